@@ -156,6 +156,12 @@ def named():
     add('assign_walrus_value', [A(0), A(1), ('assign', 'simple', [2], [('w', 3, [('r', 4)]), ('r', 5)]), X(6), X(7)],
         'a walrus nested in the value of an assignment on one line, read again in the same value',
         ties=[[0, 4], [3, 5, 7], [2, 6]])
+    add('with_first_decorated', [A(0), ('with', [(R(1), 2)], [('def', 3, [], [R(4)], None, [('pass',)]), X(5)])],
+        'the with target is read in the decorator of a def that is the first statement of the body', ties=[[0, 1], [2, 4], [3, 5]])
+    add('except_first_decorated', [('try', [('pass',)], [(None, 0, [('class', 1, [], [], [R(2)], [('pass',)]), X(3)])], [], [])],
+        'the except name is read in the decorator of a class that is the first statement of the handler', ties=[[0, 2], [1, 3]])
+    add('for_first_decorated', [('for', [0], [], [('def', 1, [], [R(2)], None, [('pass',)]), X(3)], [])],
+        ties=[[0, 2], [1, 3]])
     add('comp_in_class', [('class', 0, [], [], [], [A(1), ('expr', [('comp', 'list', [([2], R(3), [])], R(4))])])])
     return S
 
